@@ -20,7 +20,7 @@ type tables struct {
 	defaultWait  int64
 }
 
-var serverProto = map[string]string{"direct": "direct", "none": "none", "socks5": "socks5", "socks5auth": "socks5auth", "http": "http", "httpauth": "http", "ss2022": "ss2022"}
+var serverProto = map[string]string{"direct": "direct", "none": "none", "socks5": "socks5", "socks5auth": "socks5auth", "http": "http", "httpauth": "http", "ss2022": "ss2022", "ss2022mu": "ss2022"}
 
 func loadTables(d *common.Driver) (*tables, error) {
 	t := &tables{serverNative: map[string]bool{}, clientNative: map[string]bool{}}
@@ -82,6 +82,8 @@ func (sc *Scenario) user() string {
 		return "alice"
 	case "httpauth":
 		return "bob"
+	case "ss2022mu":
+		return "dave"
 	}
 	return ""
 }
@@ -106,7 +108,17 @@ func (sc *Scenario) failCode() int {
 
 // afterRequest: what the client sends after its request (the request's own payload excluded), and what the target sends.
 func (sc *Scenario) afterRequest() []byte {
+	if sc.Plain {
+		return sc.plainCS
+	}
 	return stream(sc.CSeed, sc.ReqLen, sc.clientTotal()-sc.ReqLen)
+}
+
+func (sc *Scenario) targetStream() []byte {
+	if sc.Plain {
+		return sc.plainTS
+	}
+	return stream(sc.TSeed, 0, sc.targetTotal())
 }
 
 type waitChoice struct {
@@ -125,6 +137,11 @@ func (sc *Scenario) waitChoices(buf int, obs *Obs) []waitChoice {
 		return []waitChoice{{"t", 0}, {"e", 0}}
 	}
 	n := min(sc.FirstLen, buf)
+	if sc.Plain {
+		// the forwarder writes the request into the pipe as soon as the relay proceeds; how much one pipe read returns is
+		// the forwarder's buffering (only visible at a Shadowsocks 2022 upstream, handled above)
+		return []waitChoice{{"d", min(len(sc.plainCS), buf)}, {"t", 0}}
+	}
 	switch sc.Timing {
 	case "early", "coalesced", "eofdata":
 		if n == 0 {
@@ -165,7 +182,7 @@ func (sc *Scenario) hcLine(tb *tables, target string, w waitChoice, sched string
 	}
 	return fmt.Sprintf("hc sn=%s dis=%s buf=%d req=1 addr=%s user=%s pay=%s rerr=%s cn=%s pok=1 sdl=1 cdl=1 cs=%s ts=%s wk=%s wn=%d derr=%s sched=%s",
 		b01(tb.serverNative[sc.Server]), b01(sc.DisableWait), buf, target, user, hexField(stream(sc.CSeed, 0, sc.ReqLen)), rerr,
-		b01(tb.clientNative[sc.Client]), hexField(sc.afterRequest()), hexField(stream(sc.TSeed, 0, sc.targetTotal())), w.kind, w.n, derr, sched)
+		b01(tb.clientNative[sc.Client]), hexField(sc.afterRequest()), hexField(sc.targetStream()), w.kind, w.n, derr, sched)
 }
 
 // schedFor: the schedule of the two copy loops that the scenario's ending means. Error endings put a `fail` label on the
@@ -314,6 +331,9 @@ func compare(sc *Scenario, p *Projection, o *Obs) string {
 	case "target", "wclosed": // the target is gone: what it held when it left is the oracle's business (bounds)
 		checkTarget = false
 	case "client":
+		checkClient = false
+	}
+	if sc.Plain { // the response reaches the client through the proxy's response forwarder (C16); its bytes are checked by the oracle
 		checkClient = false
 	}
 	if checkTarget {
